@@ -322,6 +322,15 @@ func cmdRun(args []string) int {
 		}
 		_ = loadS
 	}
+	scans, scanViol := runScans(h, cfg)
+	scanResults = scans
+	for _, v := range scanViol {
+		p := filepath.Join(outDir, "scan-violation.json")
+		writeJSON(p, map[string]any{"property": id, "label": v})
+		fmt.Printf("VIOLATION property=%s replay=%s\n  %s\n", id, p, v)
+		status = 1
+		nviol++
+	}
 	for kid := range knownHit {
 		fmt.Printf("KNOWN-FINDING: property=%s %s: %s\n", id, kid, knownWhat[kid])
 	}
@@ -360,6 +369,7 @@ func cmdRun(args []string) int {
 }
 
 var tracesValidated int
+var scanResults []scanResult
 
 func reachFor(h *Harness, e *EntrySpec) []string {
 	if v, ok := e.Opts["reach"]; ok {
@@ -555,6 +565,7 @@ func writeEvidence(id, tier string, seed int, results []*EntryResult, h *Harness
 			"ssa_instructions_executed":     steps,
 			"stubs":                         stubs,
 			"harness_notes":                 h.Notes,
+			"closed_world_scans":            scanResults,
 			"exhaustive":                    status == "held",
 		},
 		"assumptions": append([]string{
